@@ -215,6 +215,7 @@ var intLongSpace = longSpace{
 }
 
 func evalIntLong(w *W, cs []byte) {
+	w.pf = true
 	in, supplied, L := w.genLong(cs, fillGeneric)
 	reason, content, elemLen := w.longHeader(in, 0x02, intX)
 	v := verdict{reason, elemLen}
@@ -246,6 +247,7 @@ var bitLongSpace = longSpace{
 }
 
 func evalBitLong(w *W, cs []byte) {
+	w.pf = true
 	in, supplied, _ := w.genLong(cs, fillGeneric)
 	reason, body, elemLen := w.longHeader(in, 0x03, bitX)
 	v := verdict{reason, elemLen}
@@ -276,6 +278,7 @@ var oidLongSpace = longSpace{
 }
 
 func evalOIDLong(w *W, cs []byte) {
+	w.pf = true
 	in, supplied, _ := w.genLong(cs, fillOID)
 	reason, body, elemLen := w.longHeader(in, 0x06, oidX)
 	v := verdict{reason, elemLen}
@@ -310,6 +313,7 @@ var octLongSpace = longSpace{
 }
 
 func evalOctLong(w *W, cs []byte) {
+	w.pf = true
 	in, supplied, _ := w.genLong(cs, fillGeneric)
 	reason, content, elemLen := w.longHeader(in, 0x04, octX)
 	v := verdict{reason, elemLen}
@@ -320,9 +324,12 @@ func evalOctLong(w *W, cs []byte) {
 	if w.anyAccept {
 		w.octTargets(withTrailer(in), content, v, 0)
 		vv := verdict{octX.wrongID, len(in)}
-		for _, m := range idMasks {
+		pf := w.pf
+		for i, m := range idMasks {
+			w.pf = pf && i == 0 // destination pre-fill under the first of the other identifier octets only
 			w.octTargets(in, content, vv, m)
 		}
+		w.pf = pf
 	}
 }
 
@@ -332,25 +339,21 @@ func (w *W) octTargets(in, content []byte, v verdict, mask byte) {
 	in[0] = 0x04 ^ mask
 	eq := func(x []byte) bool { return string(x) == string(content) }
 
-	d.oct = nil
-	w.asn1Dec(0, in, v, canon, 0, &d.oct, func() (interface{}, bool) { return d.oct, eq(d.oct) })
+	w.asn1Dec(0, in, v, canon, 0, slotOct, func(d *dests) interface{} { return &d.oct }, func() (interface{}, bool) { return d.oct, eq(d.oct) })
 	if mask == 0 { // interface{} is ANY: no expected identifier
-		d.any = nil
-		w.asn1Dec(1, in, v, canon, 0, &d.any, func() (interface{}, bool) {
+		w.asn1Dec(1, in, v, canon, 0, slotAny, func(d *dests) interface{} { return &d.any }, func() (interface{}, bool) {
 			x, ok := d.any.([]byte)
 			return d.any, ok && eq(x)
 		})
 	}
-	var raw []byte
-	w.cbDec(2, in, v, canon, 0,
-		func(s *cryptobyte.String) bool { return s.ReadASN1Bytes(&raw, cbasn1.OCTET_STRING) },
-		func(b *cryptobyte.Builder) { b.AddASN1OctetString(raw) },
-		func() bool { return eq(raw) }, func() string { return hexClip(raw) })
-	var str cryptobyte.String
-	w.cbDec(3, in, v, canon, 0,
-		func(s *cryptobyte.String) bool { return s.ReadASN1(&str, cbasn1.OCTET_STRING) },
-		func(b *cryptobyte.Builder) { b.AddASN1OctetString(str) },
-		func() bool { return eq(str) }, func() string { return hexClip(str) })
+	w.cbDec(2, in, v, canon, 0, slotRaw,
+		func(s *cryptobyte.String, d *dests) bool { return s.ReadASN1Bytes(&d.rawb, cbasn1.OCTET_STRING) },
+		func(b *cryptobyte.Builder) { b.AddASN1OctetString(d.rawb) },
+		func() bool { return eq(d.rawb) }, func() string { return hexClip(d.rawb) })
+	w.cbDec(3, in, v, canon, 0, slotStr,
+		func(s *cryptobyte.String, d *dests) bool { return s.ReadASN1(&d.str, cbasn1.OCTET_STRING) },
+		func(b *cryptobyte.Builder) { b.AddASN1OctetString(d.str) },
+		func() bool { return eq(d.str) }, func() string { return hexClip(d.str) })
 }
 
 var _ = fmt.Sprint
